@@ -24,8 +24,14 @@ What is transcribed
 * `exit()` / `return` from `main`: the `atexit` handler `cleanup` unlinks every entry of `tmpfiles`
   (one step per `unlink`), then the process is gone (`Phase.done code`).
 
-`Phase.stuck` is a model-internal error (a temp register that was never filled); `never_stuck` in
-Lemmas/DriverProcLemmas.lean shows it is unreachable.
+`Phase.stuck` is a model-internal error (a temp register that was never filled); `doActs_not_stuck` with
+`compile_WF` in Lemmas/DriverProcLemmas.lean shows it is unreachable (`C14_terminates`).
+
+Not modelled: the `-M`, `-MD`, `-MF` family, `-x`, `-Wl,` splitting, `-###`, `-static`, `-shared` (they do not
+change the process structure); a failing `fork`.  A cc1 whose WRITE fails after a successful `fopen`
+(ENOSPC; main.c `close_file` turns it into `error()`) is a failing cc1 that has already truncated its
+output: the model's cc1 fails only before opening; the harness exercises the write error on `/dev/full`,
+where nothing is left behind.
 
 File contents are abstract: a class (source / preprocessed / assembly / object / executable / junk) and
 the list of origin tags of the source files that went into it, which is what the process harness can
